@@ -209,7 +209,10 @@ class Ref(object):
         o = e["o"]
         n = next(iter(scope.values())).n
         if o == "num":
-            return _jconst(e["v"], n)
+            # exprtk's own literal parser is not correctly rounded (1.136 -> 1.1360000000000001):
+            # a non-integer literal carries one unit of rounding scale
+            v = float(e["v"])
+            return _jconst(EN(v, 0.0 if v == int(v) else 2.0 * abs(v)), n)
         if o == "var":
             return scope[e["n"]]
         if o in "+-*/" and len(o) == 1:
@@ -227,7 +230,12 @@ class Ref(object):
         if o == "neg":
             return -self.expr(e["a"], scope, trace)
         if o == "^":
-            return self.expr(e["a"], scope, trace).powc(e["p"])
+            a = self.expr(e["a"], scope, trace)
+            p = float(e["p"])
+            y = a.powc(p)
+            if p != int(p):
+                y = _inflate(y, a.powc(p * (1.0 + _PERT)))
+            return y
         if o == "if":
             c = self.cond(e["c"], scope, trace)
             trace.append(("if", c))
@@ -243,7 +251,13 @@ class Ref(object):
                 if any(c.v != 0.0 for c in a.c[1:]):
                     raise ValueError("non-constant parameter to as.* inside formula")
                 ps.append(a.v)
-            return F.REF[e["f"]](args[0], *ps)
+            y = F.REF[e["f"]](args[0], *ps)
+            for i, p in enumerate(ps):
+                if p != int(p):      # literal went through exprtk's parser: see "num"
+                    q = list(ps)
+                    q[i] = p * (1.0 + _PERT)
+                    y = _inflate(y, F.REF[e["f"]](args[0], *q))
+            return y
         if o == "custom":
             return self.custom_call(e["f"], args, trace)
         if o == "table":
@@ -385,6 +399,18 @@ class Ref(object):
             return _poly_en(co[:6], x, amp)
         trace.append(("spl", 1.5))
         return _poly_en(co[6:], x, amp)
+
+
+_PERT = 2.0 ** -30
+
+
+def _inflate(y, y2):
+    """add to the rounding scale of jet y its sensitivity to a relative parameter
+    perturbation of _PERT (y2 = the perturbed evaluation), for 2 ulp of parameter error"""
+    out = []
+    for a, b in zip(y.c, y2.c):
+        out.append(EN(a.v, a.e + 2.0 * abs(b.v - a.v) / _PERT, a.u))
+    return Jet(out)
 
 
 def _poly_en(co, x, amp):
